@@ -47,7 +47,9 @@ UOne == << Base,
         [Base EXCEPT !.smin = 1, !.smax = 1],                           \* 25 sleep of one minute
         \* 26, 27: creation STACKS of two frames (race reports) that differ in the outer frame only
         [Base EXCEPT !.created = Cr("c1") \o <<Fr("c2", "c.go", 3, Args(<<>>, FALSE))>>],
-        [Base EXCEPT !.created = Cr("c1") \o <<Fr("c1", "c.go", 4, Args(<<>>, FALSE))>>]
+        [Base EXCEPT !.created = Cr("c1") \o <<Fr("c1", "c.go", 4, Args(<<>>, FALSE))>>],
+        \* 28: nil where the others hold a pointer (a non-pointer value, like 15, but the one a generalised slot could be mistaken to cover)
+        WithArgs(Args(<<Sc(0, FALSE), Sc(5, FALSE), Ag2(Sc(700000, TRUE), Sc(2, FALSE))>>, FALSE))
      >>
 
 (* Members of ONE similarity class (at the coarser levels) in which every
